@@ -9,6 +9,7 @@ import (
 	"math"
 	"reflect"
 	"strconv"
+	"sync"
 	"unsafe"
 )
 
@@ -357,6 +358,10 @@ func getTagType(v reflect.Value) (byte, reflect.Value) {
 			break
 		}
 		if v.IsNil() {
+			if zeroNeverEnds(v.Type()) {
+				// the zero value holds a nil pointer to its own type again: there is no finite encoding
+				return TagEnd, v
+			}
 			// encode a nil pointer as the zero value it could point to,
 			// without touching the caller's value
 			v = reflect.New(v.Type().Elem())
@@ -430,6 +435,67 @@ func getTagType(v reflect.Value) (byte, reflect.Value) {
 	default:
 		return getTagTypeByType(v.Type()), v
 	}
+}
+
+var (
+	marshalerType     = reflect.TypeOf((*Marshaler)(nil)).Elem()
+	textMarshalerType = reflect.TypeOf((*encoding.TextMarshaler)(nil)).Elem()
+	zeroNeverEndsMemo sync.Map // map[reflect.Type]bool
+)
+
+// zeroNeverEnds reports whether writing the zero value of t the way the encoder does
+// (a nil pointer as the zero value it could point to) would never end, because the type
+// reaches itself through fields that are always written: type T struct{ Next *T }.
+// Fields left out of a zero value (omitempty, behind a nil embedded pointer) do not count.
+func zeroNeverEnds(t reflect.Type) bool {
+	if r, ok := zeroNeverEndsMemo.Load(t); ok {
+		return r.(bool)
+	}
+	r := zeroNeverEndsFrom(t, map[reflect.Type]bool{})
+	zeroNeverEndsMemo.Store(t, r)
+	return r
+}
+
+func zeroNeverEndsFrom(t reflect.Type, onPath map[reflect.Type]bool) bool {
+	for {
+		if t.Implements(marshalerType) || t.Implements(textMarshalerType) {
+			return false // writes itself
+		}
+		if t.Kind() != reflect.Pointer {
+			break
+		}
+		t = t.Elem()
+	}
+	if pt := reflect.PointerTo(t); pt.Implements(marshalerType) || pt.Implements(textMarshalerType) {
+		return false
+	}
+	switch t.Kind() {
+	case reflect.Array:
+		return t.Len() > 0 && zeroNeverEndsFrom(t.Elem(), onPath)
+	case reflect.Struct:
+		if onPath[t] {
+			return true
+		}
+		onPath[t] = true
+		defer delete(onPath, t)
+	Fields:
+		for _, f := range cachedTypeFields(t).list {
+			ft := t
+			for _, i := range f.index {
+				if ft.Kind() == reflect.Pointer {
+					continue Fields // a nil embedded pointer: its fields are skipped
+				}
+				ft = ft.Field(i).Type
+			}
+			if f.omitEmpty && ft.Kind() != reflect.Struct && !(ft.Kind() == reflect.Array && ft.Len() > 0) {
+				continue // the zero value of the field is empty
+			}
+			if zeroNeverEndsFrom(ft, onPath) {
+				return true
+			}
+		}
+	}
+	return false
 }
 
 func getTagTypeByType(vk reflect.Type) byte {
